@@ -25,7 +25,7 @@ import VsgModel.Lex.Retok
 import VsgModel.Engine.ReparseReport
 import VsgProofs.Lemmas.Retok
 namespace Vsgm.C08
-open Vsgm Vsgm.Lex Vsgm.Reparse
+open Vsgm Vsgm.Lex Vsgm.Lex.Rt Vsgm.Reparse
 
 /-- the tables of the running system satisfy the conditions of the theorems below -/
 theorem pyTables_ok : TablesOk pyTables where
